@@ -54,7 +54,9 @@ func InitRandom(rg *VP8Random, dithering float32) {
 func RandomBits2(rg *VP8Random, numBits, amp int) int {
 	diff := int(rg.tab[rg.index1]) - int(rg.tab[rg.index2])
 	if diff < 0 {
-		diff += 1 << 31
+		// diff += 1 << 31, written so that it also compiles where int is
+		// 32 bits wide (the untyped constant 1<<31 overflows int there).
+		diff = int(uint32(diff) + 1<<31)
 	}
 	rg.tab[rg.index1] = uint32(diff)
 	rg.index1++
